@@ -75,7 +75,10 @@ Finish(n, appliedL1, appliedL2, newdead, isfault, kfnow) ==
              ELSE IF f /\ IsRead(r) /\ Explaining(A, r, res) # {} THEN UNCHANGED <<adm, bad>>
              \* (a refused write may even have been applied to one tier - an add refused by a stale L1 after L2
              \* took it: its value becomes admissible as well)
-             ELSE IF f /\ res = <<"fail">> /\ Explaining(A, r, res) # {}
+             \* - explained or not: a faulty backend may answer any request with a refusal status. (Such faults
+             \* are placed on the real stack by the thorough tier; the design model has no action for them: the
+             \* orchestrator programs of Orca.tla define After only for the results a healthy tier can give.)
+             ELSE IF f /\ res = <<"fail">>
                   THEN adm' = [adm EXCEPT ![cmd.k] = A \cup After1(A, r)] /\ UNCHANGED bad
              \* a touch or get-and-touch does not say which entry is the entry either: all of them get the new expiry
              ELSE IF f /\ r.m \in {"touch", "gat"} /\ Explaining(A, r, res) # {}
